@@ -1001,11 +1001,11 @@ theorem C14_fn_on_transaction_output (ds : GDS) (bh : Nat) (hb : ds.block_hash =
     · simp [hlt, hc, hb, Rs.unwrap, Rs.assert, Rs.panic]
 
 
-/-! ### `PushListener::on_transaction_end` (generated, not yet tied as a whole)
+/-! ### `PushListener::on_transaction_end`
 
 The body is generated (`Gen.FnMonitorC14.PushListener.on_transaction_end`, commitment decoder and point provider as
-externals).  Proved here: its final loop.  The funding-confirmation and close-classification steps are the same
-`add_change` calls as in `on_transaction_input` (`add_change_nf`); the equality with the tail of `Monitor.onTx` is open. -/
+externals).  First its final loop and the special case of a transaction that is neither a funding transaction nor a
+close (`_partial`), then the full tie `C14_fn_on_transaction_end` against the tail of `Monitor.onTx` (`txEnd`, `onTx_eq`). -/
 
 /-- the decode state when `on_transaction_end` runs / when it is done (per-transaction scratch consumed) -/
 def endDs (bh : Nat) (ver : Int) (n o : Nat) (ctx : Option GTx) (sp : List (Nat × Nat)) (cs : List Change)
@@ -1049,8 +1049,7 @@ def gOnEnd (l : GPL) (txid : Nat) : Rs.M GPL :=
 /-- **`on_transaction_end`, partial**: for a transaction that is neither a funding transaction of the channel nor spends
     the funding outpoint, the function is the HTLC loop — `Monitor.addChanges` over the spent HTLC outputs collected by
     `on_transaction_input`, each becoming `HTLCOutputSpent(vout, (txid, input index))` — and the per-transaction scratch
-    is consumed.  (Full statement, open: equality with the whole tail of `Monitor.onTx`, including `FundingConfirmed`
-    and the unilateral / mutual classification through the commitment decoder.) -/
+    is consumed.  (The full statement is `C14_fn_on_transaction_end` below.) -/
 theorem C14_fn_on_transaction_end_partial (bh : Nat) (ver : Int) (o : Nat) (d : Scratch) (txid : Nat)
     (hf : position txid d.t.fundingTxids = none) (hc : d.closingIn = none) :
     gOnEnd { commitment_point_provider := (), saw_block := true,
@@ -1067,5 +1066,245 @@ theorem C14_fn_on_transaction_end_partial (bh : Nat) (ver : Int) (o : Nat) (d : 
   simp only [C14_fn_is_not_ready, endDs, Option.isSome_some, if_true, Rs.bind_ok, Bool.false_eq_true, if_false, hpos,
     Rs.pure_eq, hmap]
   exact fold_add_changes bh ver d.inputNum o _ d
+
+
+/-- the tail of `Monitor.onTx` after the inputs and the output-count assert (same text as in `Model/Monitor.lean`) -/
+def txEnd (d : Scratch) (tx : Tx) : Option (Monitor.State × List Change) := do
+  let d ← match position tx.txid d.t.fundingTxids with
+    | some ind =>
+      match d.t.fundingVouts[ind]? with
+      | none => none                                    -- index out of bounds
+      | some vout => if vout < tx.nOut then d.addChange (.fundingConfirmed (tx.txid, vout)) else none
+    | none => some d
+  let d ← match d.closingIn with
+    | some fo =>
+      match tx.kind with
+      | .commit our htlcs => d.addChange (.unilateral tx.txid fo our htlcs)
+      | .plain => d.addChange (.mutual tx.txid fo)
+    | none => some d
+  let d ← addChanges d (d.spentHtlc.map fun (v, idx) => Change.htlcSpent v (tx.txid, idx))
+  some (d.t, d.changes)
+
+/-- `Monitor.onTx` = the inputs, the output-count assert, then `txEnd` -/
+theorem onTx_eq (t : Monitor.State) (cs : List Change) (tx : Tx) :
+    onTx t cs tx = (do
+      let d ← onInputs { t, changes := cs, inputNum := 0, closingIn := none, spentHtlc := [] } tx.inputs
+      if d.closingIn.isSome && tx.nOut > MAX_COMMITMENT_OUTPUTS then none else txEnd d tx) := rfl
+
+
+def xNum (k : Kind) (_tx : GTx) (_p : Unit) : Option Nat := match k with | .commit _ _ => some 0 | .plain => none
+def xDecode (k : Kind) (_tx : GTx) (_h : Unit) (_c : Option Unit) (_p : Unit) : Option Nat × List Nat :=
+  match k with | .commit our htlcs => (our, htlcs) | .plain => (none, [])
+def xSpend (k : Kind) (_pr : Unit) (_tx : GTx) (_n : Nat) : Option (List Nat) :=
+  match k with | .commit _ htlcs => some htlcs | .plain => none
+
+/-- the generated `on_transaction_end` with the commitment decoder answering `kind` (`Tx.kind`: what the harness observes
+    from the real decoder): `decode_commitment_number` is `Some` exactly for a commitment, `decode_commitment_tx` and
+    `get_spendable_htlc_indices` return its output indices -/
+def gOnEndK (k : Kind) (l : GPL) (txid : Nat) : Rs.M GPL :=
+  Gen.FnMonitorC14.PushListener.on_transaction_end (ChannelTransactionParameters := Unit) (PublicKey := Unit)
+    (ext_CommitmentPointProvider_get_transaction_parameters := fun _ => ())
+    (ext_decode_commitment_number := xNum k)
+    (ext_CommitmentPointProvider_get_holder_commitment_point := fun _ _ => ())
+    (ext_CommitmentPointProvider_get_counterparty_commitment_point := fun _ _ => none)
+    (ext_decode_commitment_tx := xDecode k)
+    (ext_CommitmentPointProvider_get_spendable_htlc_indices := xSpend k) l () txid
+
+/-- **`PushListener::on_transaction_end` = the tail of `Monitor.onTx`** (`txEnd`, `onTx_eq`): `FundingConfirmed` for a
+    funding txid (index and output-count asserts), the gathered closing transaction classified by the commitment decoder
+    into `UnilateralCloseConfirmed` / `MutualCloseConfirmed`, then `HTLCOutputSpent` for every spent HTLC output; the
+    per-transaction scratch is consumed. -/
+theorem C14_fn_on_transaction_end (bh : Nat) (ver : Int) (outs : List Unit) (d : Scratch) (tx : Tx) :
+    gOnEndK tx.kind { commitment_point_provider := (), saw_block := true,
+                      decode_state := endDs bh ver d.inputNum tx.nOut (d.closingIn.map (closingTx ver outs)) d.spentHtlc
+                                        d.changes d.t } tx.txid
+      = ofOpt (fun r : Monitor.State × List Change =>
+                 ({ commitment_point_provider := (), saw_block := true,
+                    decode_state := endDs bh ver d.inputNum tx.nOut none [] r.2 r.1 } : GPL)) (txEnd d tx) := by
+  unfold gOnEndK Gen.FnMonitorC14.PushListener.on_transaction_end txEnd Scratch.addChange
+  have hpos : (toGen d.t).funding_txids.findIdx? (fun i => i == tx.txid) = position tx.txid d.t.fundingTxids := by
+    rw [position_eq_findIdx]; rfl
+  have hvouts : (toGen d.t).funding_vouts = d.t.fundingVouts := rfl
+  simp only [C14_fn_is_not_ready, endDs, Option.isSome_some, if_true, Rs.bind_ok, Bool.false_eq_true, if_false, hpos,
+    hvouts, Rs.pure_eq]
+  cases hp : position tx.txid d.t.fundingTxids with
+  | none =>
+    simp only [Rs.bind_ok, Option.bind_eq_bind, Option.bind_some]
+    cases hci : d.closingIn with
+    | none =>
+      simp only [Option.map_none, Rs.bind_ok, Rs.pure_eq, Option.bind_eq_bind, Option.bind_some]
+      have hmapF : (d.spentHtlc.map fun (p : Nat × Nat) =>
+            Gen.FnMonitorC14.StateChange.HTLCOutputSpent p.1 ({ txid := tx.txid, vout := p.2 } : GOp))
+          = (d.spentHtlc.map fun (v, idx) => Change.htlcSpent v (tx.txid, idx)).map toGenChange := by
+        rw [List.map_map]; rfl
+      simp only [hmapF]
+      have hfold := fold_add_changes bh ver d.inputNum tx.nOut
+        (d.spentHtlc.map fun (v, idx) => Change.htlcSpent v (tx.txid, idx)) { d with t := d.t, changes := d.changes }
+      simp only [endPl, endDs, Rs.pure_eq] at hfold
+      rw [hfold]
+      first
+        | (cases addChanges { d with t := d.t, changes := d.changes } (d.spentHtlc.map fun (v, idx) => Change.htlcSpent v (tx.txid, idx)) <;> rfl)
+        | (simp only [hci]; cases addChanges { t := d.t, changes := d.changes, inputNum := d.inputNum, closingIn := none, spentHtlc := d.spentHtlc } (d.spentHtlc.map fun (v, idx) => Change.htlcSpent v (tx.txid, idx)) <;> rfl)
+    | some fo =>
+      simp only [Option.map_some, closingTx, List.length_singleton, beq_self_eq_true, Rs.assert, if_true, Rs.bind_ok,
+        Rs.pure_eq, Option.bind_eq_bind, Option.bind_some, Rs.index, List.getElem?_cons_zero, toGenTxIn]
+      cases hk : tx.kind with
+      | plain =>
+        simp only [xNum, xDecode, xSpend]
+        rw [show Gen.FnMonitorC14.StateChange.MutualCloseConfirmed tx.txid (toGenOp fo) = toGenChange (.mutual tx.txid fo) from rfl]
+        simp only [add_change_nf]
+        cases hap2 : applyForward d.t (.mutual tx.txid fo) with
+        | none => simp [ofOpt]
+        | some r2 =>
+          obtain ⟨t2, a2, r2'⟩ := r2
+          simp only [Rs.bind_ok, Option.map_some, Option.bind_some]
+          have hmapF : (d.spentHtlc.map fun (p : Nat × Nat) =>
+                Gen.FnMonitorC14.StateChange.HTLCOutputSpent p.1 ({ txid := tx.txid, vout := p.2 } : GOp))
+              = (d.spentHtlc.map fun (v, idx) => Change.htlcSpent v (tx.txid, idx)).map toGenChange := by
+            rw [List.map_map]; rfl
+          simp only [hmapF]
+          have hfold := fold_add_changes bh ver d.inputNum tx.nOut
+            (d.spentHtlc.map fun (v, idx) => Change.htlcSpent v (tx.txid, idx)) { t := t2, changes := d.changes ++ [Change.mutual tx.txid fo], inputNum := d.inputNum, closingIn := some fo, spentHtlc := d.spentHtlc }
+          simp only [endPl, endDs, Rs.pure_eq] at hfold
+          rw [hfold]
+          cases addChanges { t := t2, changes := d.changes ++ [Change.mutual tx.txid fo], inputNum := d.inputNum, closingIn := some fo, spentHtlc := d.spentHtlc } (d.spentHtlc.map fun (v, idx) => Change.htlcSpent v (tx.txid, idx)) <;> rfl
+      | commit our htlcs =>
+        cases htlcs with
+        | nil =>
+          simp only [xNum, xDecode, xSpend, List.isEmpty_nil, if_true]
+          rw [show Gen.FnMonitorC14.StateChange.UnilateralCloseConfirmed tx.txid (toGenOp fo) our []
+                = toGenChange (.unilateral tx.txid fo our []) from rfl]
+          simp only [add_change_nf]
+          cases hap2 : applyForward d.t (.unilateral tx.txid fo our []) with
+          | none => simp [ofOpt]
+          | some r2 =>
+            obtain ⟨t2, a2, r2'⟩ := r2
+            simp only [Rs.bind_ok, Option.map_some, Option.bind_some]
+            have hmapF : (d.spentHtlc.map fun (p : Nat × Nat) =>
+                  Gen.FnMonitorC14.StateChange.HTLCOutputSpent p.1 ({ txid := tx.txid, vout := p.2 } : GOp))
+                = (d.spentHtlc.map fun (v, idx) => Change.htlcSpent v (tx.txid, idx)).map toGenChange := by
+              rw [List.map_map]; rfl
+            simp only [hmapF]
+            have hfold := fold_add_changes bh ver d.inputNum tx.nOut
+              (d.spentHtlc.map fun (v, idx) => Change.htlcSpent v (tx.txid, idx)) { t := t2, changes := d.changes ++ [Change.unilateral tx.txid fo our []], inputNum := d.inputNum, closingIn := some fo, spentHtlc := d.spentHtlc }
+            simp only [endPl, endDs, Rs.pure_eq] at hfold
+            rw [hfold]
+            cases addChanges { t := t2, changes := d.changes ++ [Change.unilateral tx.txid fo our []], inputNum := d.inputNum, closingIn := some fo, spentHtlc := d.spentHtlc } (d.spentHtlc.map fun (v, idx) => Change.htlcSpent v (tx.txid, idx)) <;> rfl
+        | cons hh tl =>
+          simp only [xNum, xDecode, xSpend, List.isEmpty_cons, Bool.false_eq_true, if_false, Option.getD_some]
+          rw [show Gen.FnMonitorC14.StateChange.UnilateralCloseConfirmed tx.txid (toGenOp fo) our (hh :: tl)
+                = toGenChange (.unilateral tx.txid fo our (hh :: tl)) from rfl]
+          simp only [add_change_nf]
+          cases hap2 : applyForward d.t (.unilateral tx.txid fo our (hh :: tl)) with
+          | none => simp [ofOpt]
+          | some r2 =>
+            obtain ⟨t2, a2, r2'⟩ := r2
+            simp only [Rs.bind_ok, Option.map_some, Option.bind_some]
+            have hmapF : (d.spentHtlc.map fun (p : Nat × Nat) =>
+                  Gen.FnMonitorC14.StateChange.HTLCOutputSpent p.1 ({ txid := tx.txid, vout := p.2 } : GOp))
+                = (d.spentHtlc.map fun (v, idx) => Change.htlcSpent v (tx.txid, idx)).map toGenChange := by
+              rw [List.map_map]; rfl
+            simp only [hmapF]
+            have hfold := fold_add_changes bh ver d.inputNum tx.nOut
+              (d.spentHtlc.map fun (v, idx) => Change.htlcSpent v (tx.txid, idx)) { t := t2, changes := d.changes ++ [Change.unilateral tx.txid fo our (hh :: tl)], inputNum := d.inputNum, closingIn := some fo, spentHtlc := d.spentHtlc }
+            simp only [endPl, endDs, Rs.pure_eq] at hfold
+            rw [hfold]
+            cases addChanges { t := t2, changes := d.changes ++ [Change.unilateral tx.txid fo our (hh :: tl)], inputNum := d.inputNum, closingIn := some fo, spentHtlc := d.spentHtlc } (d.spentHtlc.map fun (v, idx) => Change.htlcSpent v (tx.txid, idx)) <;> rfl
+  | some ind =>
+    simp only [Rs.index]
+    cases hv : d.t.fundingVouts[ind]? with
+    | none => simp [ofOpt, Rs.panic]
+    | some vout =>
+      by_cases hlt : vout < tx.nOut
+      · simp only [hlt, decide_true, Rs.assert, if_true, Rs.bind_ok, Rs.pure_eq]
+        rw [show Gen.FnMonitorC14.StateChange.FundingConfirmed ({ txid := tx.txid, vout := vout } : GOp)
+              = toGenChange (.fundingConfirmed (tx.txid, vout)) from rfl]
+        simp only [add_change_nf]
+        cases hap1 : applyForward d.t (.fundingConfirmed (tx.txid, vout)) with
+        | none => simp [ofOpt]
+        | some r1 =>
+          obtain ⟨t1, a1, r1'⟩ := r1
+          simp only [Rs.bind_ok, Option.map_some, Option.bind_eq_bind, Option.bind_some]
+          cases hci : d.closingIn with
+          | none =>
+            simp only [Option.map_none, Rs.bind_ok, Rs.pure_eq, Option.bind_eq_bind, Option.bind_some]
+            have hmapF : (d.spentHtlc.map fun (p : Nat × Nat) =>
+                  Gen.FnMonitorC14.StateChange.HTLCOutputSpent p.1 ({ txid := tx.txid, vout := p.2 } : GOp))
+                = (d.spentHtlc.map fun (v, idx) => Change.htlcSpent v (tx.txid, idx)).map toGenChange := by
+              rw [List.map_map]; rfl
+            simp only [hmapF]
+            have hfold := fold_add_changes bh ver d.inputNum tx.nOut
+              (d.spentHtlc.map fun (v, idx) => Change.htlcSpent v (tx.txid, idx)) { d with t := t1, changes := (d.changes ++ [Change.fundingConfirmed (tx.txid, vout)]) }
+            simp only [endPl, endDs, Rs.pure_eq] at hfold
+            rw [hfold]
+            first
+              | (cases addChanges { d with t := t1, changes := (d.changes ++ [Change.fundingConfirmed (tx.txid, vout)]) } (d.spentHtlc.map fun (v, idx) => Change.htlcSpent v (tx.txid, idx)) <;> rfl)
+              | (simp only [hci]; cases addChanges { t := t1, changes := (d.changes ++ [Change.fundingConfirmed (tx.txid, vout)]), inputNum := d.inputNum, closingIn := none, spentHtlc := d.spentHtlc } (d.spentHtlc.map fun (v, idx) => Change.htlcSpent v (tx.txid, idx)) <;> rfl)
+          | some fo =>
+            simp only [Option.map_some, closingTx, List.length_singleton, beq_self_eq_true, Rs.assert, if_true, Rs.bind_ok,
+              Rs.pure_eq, Option.bind_eq_bind, Option.bind_some, Rs.index, List.getElem?_cons_zero, toGenTxIn]
+            cases hk : tx.kind with
+            | plain =>
+              simp only [xNum, xDecode, xSpend]
+              rw [show Gen.FnMonitorC14.StateChange.MutualCloseConfirmed tx.txid (toGenOp fo) = toGenChange (.mutual tx.txid fo) from rfl]
+              simp only [add_change_nf]
+              cases hap2 : applyForward t1 (.mutual tx.txid fo) with
+              | none => simp [ofOpt]
+              | some r2 =>
+                obtain ⟨t2, a2, r2'⟩ := r2
+                simp only [Rs.bind_ok, Option.map_some, Option.bind_some]
+                have hmapF : (d.spentHtlc.map fun (p : Nat × Nat) =>
+                      Gen.FnMonitorC14.StateChange.HTLCOutputSpent p.1 ({ txid := tx.txid, vout := p.2 } : GOp))
+                    = (d.spentHtlc.map fun (v, idx) => Change.htlcSpent v (tx.txid, idx)).map toGenChange := by
+                  rw [List.map_map]; rfl
+                simp only [hmapF]
+                have hfold := fold_add_changes bh ver d.inputNum tx.nOut
+                  (d.spentHtlc.map fun (v, idx) => Change.htlcSpent v (tx.txid, idx)) { t := t2, changes := (d.changes ++ [Change.fundingConfirmed (tx.txid, vout)]) ++ [Change.mutual tx.txid fo], inputNum := d.inputNum, closingIn := some fo, spentHtlc := d.spentHtlc }
+                simp only [endPl, endDs, Rs.pure_eq] at hfold
+                rw [hfold]
+                cases addChanges { t := t2, changes := (d.changes ++ [Change.fundingConfirmed (tx.txid, vout)]) ++ [Change.mutual tx.txid fo], inputNum := d.inputNum, closingIn := some fo, spentHtlc := d.spentHtlc } (d.spentHtlc.map fun (v, idx) => Change.htlcSpent v (tx.txid, idx)) <;> rfl
+            | commit our htlcs =>
+              cases htlcs with
+              | nil =>
+                simp only [xNum, xDecode, xSpend, List.isEmpty_nil, if_true]
+                rw [show Gen.FnMonitorC14.StateChange.UnilateralCloseConfirmed tx.txid (toGenOp fo) our []
+                      = toGenChange (.unilateral tx.txid fo our []) from rfl]
+                simp only [add_change_nf]
+                cases hap2 : applyForward t1 (.unilateral tx.txid fo our []) with
+                | none => simp [ofOpt]
+                | some r2 =>
+                  obtain ⟨t2, a2, r2'⟩ := r2
+                  simp only [Rs.bind_ok, Option.map_some, Option.bind_some]
+                  have hmapF : (d.spentHtlc.map fun (p : Nat × Nat) =>
+                        Gen.FnMonitorC14.StateChange.HTLCOutputSpent p.1 ({ txid := tx.txid, vout := p.2 } : GOp))
+                      = (d.spentHtlc.map fun (v, idx) => Change.htlcSpent v (tx.txid, idx)).map toGenChange := by
+                    rw [List.map_map]; rfl
+                  simp only [hmapF]
+                  have hfold := fold_add_changes bh ver d.inputNum tx.nOut
+                    (d.spentHtlc.map fun (v, idx) => Change.htlcSpent v (tx.txid, idx)) { t := t2, changes := (d.changes ++ [Change.fundingConfirmed (tx.txid, vout)]) ++ [Change.unilateral tx.txid fo our []], inputNum := d.inputNum, closingIn := some fo, spentHtlc := d.spentHtlc }
+                  simp only [endPl, endDs, Rs.pure_eq] at hfold
+                  rw [hfold]
+                  cases addChanges { t := t2, changes := (d.changes ++ [Change.fundingConfirmed (tx.txid, vout)]) ++ [Change.unilateral tx.txid fo our []], inputNum := d.inputNum, closingIn := some fo, spentHtlc := d.spentHtlc } (d.spentHtlc.map fun (v, idx) => Change.htlcSpent v (tx.txid, idx)) <;> rfl
+              | cons hh tl =>
+                simp only [xNum, xDecode, xSpend, List.isEmpty_cons, Bool.false_eq_true, if_false, Option.getD_some]
+                rw [show Gen.FnMonitorC14.StateChange.UnilateralCloseConfirmed tx.txid (toGenOp fo) our (hh :: tl)
+                      = toGenChange (.unilateral tx.txid fo our (hh :: tl)) from rfl]
+                simp only [add_change_nf]
+                cases hap2 : applyForward t1 (.unilateral tx.txid fo our (hh :: tl)) with
+                | none => simp [ofOpt]
+                | some r2 =>
+                  obtain ⟨t2, a2, r2'⟩ := r2
+                  simp only [Rs.bind_ok, Option.map_some, Option.bind_some]
+                  have hmapF : (d.spentHtlc.map fun (p : Nat × Nat) =>
+                        Gen.FnMonitorC14.StateChange.HTLCOutputSpent p.1 ({ txid := tx.txid, vout := p.2 } : GOp))
+                      = (d.spentHtlc.map fun (v, idx) => Change.htlcSpent v (tx.txid, idx)).map toGenChange := by
+                    rw [List.map_map]; rfl
+                  simp only [hmapF]
+                  have hfold := fold_add_changes bh ver d.inputNum tx.nOut
+                    (d.spentHtlc.map fun (v, idx) => Change.htlcSpent v (tx.txid, idx)) { t := t2, changes := (d.changes ++ [Change.fundingConfirmed (tx.txid, vout)]) ++ [Change.unilateral tx.txid fo our (hh :: tl)], inputNum := d.inputNum, closingIn := some fo, spentHtlc := d.spentHtlc }
+                  simp only [endPl, endDs, Rs.pure_eq] at hfold
+                  rw [hfold]
+                  cases addChanges { t := t2, changes := (d.changes ++ [Change.fundingConfirmed (tx.txid, vout)]) ++ [Change.unilateral tx.txid fo our (hh :: tl)], inputNum := d.inputNum, closingIn := some fo, spentHtlc := d.spentHtlc } (d.spentHtlc.map fun (v, idx) => Change.htlcSpent v (tx.txid, idx)) <;> rfl
+      · simp [hlt, Rs.assert, Rs.panic, ofOpt]
 
 end VlsModel.Props.C14Fn
